@@ -62,13 +62,13 @@ class ASPOperation(ASPElement):
 
 
 class ASPAngleOperation(ASPOperation):
-    def __init__(self, operator: Operators, *operands: ASPElement):
-        super(ASPAngleOperation, self).__init__(operator, *operands)
+    def __init__(self, operator: Operators, *operands: ASPElement, negated: bool = False):
+        super(ASPAngleOperation, self).__init__(operator, *operands, negated=negated)
 
     def __str__(self) -> str:
         if self.operator != Operators.SUM and self.operator != Operators.DIFFERENCE and \
                 self.operator != Operators.MULTIPLICATION and self.operator != Operators.DIVISION:
-            return f' {ASPOperation.operators[self.operator]} '.join(
+            return ('not ' if self.negated else '') + f' {ASPOperation.operators[self.operator]} '.join(
                 ['(' + str(operand) + ')/360' for operand in self.operands])
         else:
             return super(ASPAngleOperation, self).__str__()
